@@ -125,8 +125,8 @@ prop("C02",
      "E2 grant rule (one vote per term, only to up-to-date logs, not while following a leader), E3 a node becomes leader only as a candidate by a MsgVoteResp of its own term that completes a joint-majority of granted votes, E4 provenance of tallied votes, E5 the self vote travels through the after-append queue, E6 leading only with a durable term, E7 restart as follower.")
 
 prop("C17",
-     H(VOTE, ["K1/", "K3/"]) + H(VRESP + HUP, ["K2/"]) + H(step('L', 'MsgCheckQuorum') + step('L', 'MsgHeartbeatResp')[:0], ["K4/"]) + H(TICK[1:3], ["K5/"]) + H(["vpH_api_Campaign_F", "vpH_api_ForgetLeader_F", "vpH_api_TransferLeader_F", "vpH_api_Tick_F"], ["API/"]) + H(["vpH_step_L_MsgTransferLeader_learner"], ["K2/", "E2/", "Inv/"]),
-     H(T(VOTE), ["K1/", "K3/"]) + H(T(VRESP + HUP), ["K2/"]) + H(T(step('L', 'MsgCheckQuorum') + LEAD_HBR + LEAD_ACK), ["K4/"]) + H(TICK[:3] + ['vpH_tick_CheckQuorum_et3', 'vpH_tick_CheckQuorum_et2_joint'], ["K5/"]) + H(["vpH_api_Campaign_F", "vpH_api_ForgetLeader_F", "vpH_api_TransferLeader_F", "vpH_api_TransferLeader_L", "vpH_api_Tick_F", "vpH_api_Tick_L"], ["API/"]) + H(["vpH_step_L_MsgTransferLeader_learner"], ["K2/", "E2/", "Inv/"]),
+     H(VOTE, ["K1/", "K3/"]) + H(VRESP + HUP, ["K2/"]) + H(step('L', 'MsgCheckQuorum') + step('L', 'MsgHeartbeatResp')[:0], ["K4/"]) + H(TICK[1:3], ["K5/"]) + H(["vpH_api_Campaign_F", "vpH_api_ForgetLeader_F", "vpH_api_TransferLeader_F", "vpH_api_Tick_F"], ["API/"]) + H(["vpH_step_L_MsgTransferLeader_learner"], ["K2/", "Inv/"]),
+     H(T(VOTE), ["K1/", "K3/"]) + H(T(VRESP + HUP), ["K2/"]) + H(T(step('L', 'MsgCheckQuorum') + LEAD_HBR + LEAD_ACK), ["K4/"]) + H(TICK[:3] + ['vpH_tick_CheckQuorum_et3', 'vpH_tick_CheckQuorum_et2_joint'], ["K5/"]) + H(["vpH_api_Campaign_F", "vpH_api_ForgetLeader_F", "vpH_api_TransferLeader_F", "vpH_api_TransferLeader_L", "vpH_api_Tick_F", "vpH_api_Tick_L"], ["API/"]) + H(["vpH_step_L_MsgTransferLeader_learner"], ["K2/", "Inv/"]),
      BQ + BT + "Tick harnesses: ElectionTick 2 (3), HeartbeatTick 1, 2*ET ticks without incoming messages. " + OUT,
      "K1 a pre-vote request changes nothing but the reply, K2 with PreVote the term rises for a campaign only after a pre-vote quorum or on a leader-initiated transfer, K3 the leader lease, K4 CheckQuorum steps down iff no joint-majority was recently active, K5 a silent leader steps down within two election timeouts.")
 
